@@ -59,6 +59,9 @@ static long read_hunk_header(FILE *in)
 
   for (n = 0; n < table_length; n++)
   {
+    // A truncated file gives a table length of 0xffffffff.
+    if (feof(in)) { break; }
+
     //uint32_t size = read_int32(in);
     read_int32(in);
 
@@ -115,6 +118,12 @@ int read_amiga(const char *filename, Memory *memory)
   while (running == 1)
   {
     uint32_t hunk_type = read_int32(in);
+
+    if (feof(in))
+    {
+      fclose(in);
+      return -1;
+    }
 
     long marker = ftell(in);
 
